@@ -9,6 +9,8 @@ import re
 from harness import chars, core, drivers, shelldrv, tlc
 
 ALPH = ['a', '<', '&', '"', '>', ' ', '\t', 'b', "'", ';']
+# characters that str.splitlines() takes for line ends, but that do not end a line of the file
+ALPH2 = ['a', '\x0c', 'b', '\u2028', '<', '\x0b', ' ', '\x85', 'c', '\x1c']
 MSG = 'MSG%d <b>&amp;"quot" \'x\''
 SUGGS = ['</span><td>"&lt;%d', '"q%d"', "it's>%d", 'two words %d', '&amp;%d']
 
@@ -23,7 +25,7 @@ def build_text(lens, variant):
     for n in lens:
         line = ''
         for _ in range(n):
-            line += 'a' if variant == 0 else ALPH[i % len(ALPH)]
+            line += 'a' if variant == 0 else (ALPH2[i % len(ALPH2)] if variant >= 8 else ALPH[i % len(ALPH)])
             i += 3
         out.append(line)
     return '\n'.join(out) + '\n'
@@ -121,7 +123,7 @@ def run(prop, tier, seed, replay=None):
                     continue
                 seen.add(key)
                 ctx = -1 if b['neg'] else b['ctx']
-                for variant in ((0, 1 + len(cases) % 7) if q else (0, 1, 4)):
+                for variant in ((0, 1 + len(cases) % 7, 8 + len(cases) % 3) if q else (0, 1, 4, 8, 9)):
                     cases.append(dict(id=len(cases), text=build_text(b['lens'], variant), matches=b['matches'], ctx=ctx,
                                       model={'displayed': sorted(b['displayed']), 'overlapped': sorted(b['overlapped'])}))
         # long lines and many lines (outside the model's bounds): Level A only
